@@ -14,9 +14,9 @@ NOTES = {
 }
 NOTES.update({
     "C15": "PARTIAL: the per-event rules of sim_network_stack by Verus with stand-ins for std::time, the queue and the network model (no overflow of Instant arithmetic assumed; pop_blocking assumed to remove the event peek_blocking shows); whole-run conservation / causality and the final sort are not decided.",
-    "C16": "PARTIAL and BOUNDED: per-action rules of do_scheduled_action / peek_blocked_exp on two timer slots per side; the trace-level clauses (one BlockingEnd, nothing leaves a blocked side) need the event loop and are not decided.",
-    "C17": "PARTIAL: trigger_update by Verus for any number of machines (std::time / queue / framework stand-ins, no overflow of Instant arithmetic assumed); firing and look-ahead by Kani BOUNDED to two slots per side; that pick_next advances to the earliest pending time is not decided.",
-    "C18": "PARTIAL: as C17, for the internal timer: the UpdateTimer rule, cancellation and TimerBegin by Verus; TimerEnd and look-ahead by Kani, BOUNDED; pick_next not decided.",
+    "C16": "PARTIAL: per-action rules of do_scheduled_action, peek_blocked_exp and the BlockingEnd branch of pick_next by Verus for any number of machines (std::time, queue, network model, peek_queue as stand-ins; pick_next partial correctness only - its recursion is not shown to terminate); the bit-precise Kani harnesses are BOUNDED to two timer slots per side; 'nothing leaves a blocked side' with several queued packets needs peek_queue and the event loop and is not decided.",
+    "C17": "PARTIAL: trigger_update, do_scheduled_action, peek_scheduled_action and pick_next by Verus for any number of machines (std::time / queue / framework / peek_queue stand-ins, no overflow of Instant arithmetic assumed, every Duration in [0, Duration::MAX] assumed, the trigger delay modelled as a function of the side's integration; pick_next partial correctness only); the bit-precise Kani harnesses are BOUNDED to two slots per side; composition over the main loop of sim_advanced is not decided.",
+    "C18": "PARTIAL: as C17, for the internal timer: the UpdateTimer rule, cancellation, TimerBegin, TimerEnd, look-ahead and the timer branch of pick_next by Verus for any number of machines (pick_next partial correctness only); bit-precise Kani harnesses BOUNDED to two slots per side; composition over the main loop not decided.",
 })
 p = os.path.join(ROOT, "MANIFEST.json")
 m = json.load(open(p))
